@@ -1,6 +1,6 @@
 (* C08 — table obligations: facts about the source as extracted into Tables.v on this run (through Cfg.src_cfg),
    each discharged by closed computation.  When the source changes exactly the lemma naming that shape stops checking. *)
-From G08 Require Import Cfg Spec Proofs.
+From G08 Require Import Cfg Spec Proofs V1Proofs.
 
 (* identifier length and the two signatures *)
 Lemma ob_common : cfg_common_ok src_cfg.
@@ -9,6 +9,12 @@ Proof. vm_compute. repeat split. Qed.
 (* v2: fixed part, length limit, address block sizes, command and family bytes *)
 Lemma ob_v2 : cfg_v2_ok src_cfg.
 Proof. vm_compute. repeat split. Qed.
+
+(* v1: slice bounds, protocol names, the 107-byte cap, and — F9 — the optimistic reads stay within the shortest
+   well-formed line of their family (32 bytes for TCP4, 22 for TCP6) and are consistent with the CRLF test,
+   the parsed slice and the index the byte-wise scan resumes from *)
+Lemma ob_v1 : cfg_v1_ok src_cfg.
+Proof. vm_compute. repeat split; repeat constructor. Qed.
 
 (* no path yields an accepted header without addresses (F8): unknown commands and families are rejected,
    or RemoteAddr/LocalAddr fall back to the socket *)
